@@ -227,6 +227,8 @@ def truncated(rng):
     """messages that end where a parser expects more: inside a header name, after the colon, inside a (folded) value, inside an
     encoded word, inside a boundary line, inside a quoted-printable escape, without the final newline"""
     hs = [b'From: a@b', b'Subject: Re: your invoice', b'X-Label: one\n two', b'Subject: =?UTF-8?Q?caf=C3=A9?= =?utf-8?B?QUJD?=',
+          rng.choice([b'Subject: =?UTF-8?B??=', b'Subject: =?UTF-8?Q??= =?UTF-8?B??= x', b'To: =?x?B?=?= =?x?b?QQ?=', b'Subject: =?' + b'c' * 3000 + b'?B?QUJD?=',
+                      b'Subject: ' + b'=?x?Q?a?= ' * 400, b'Subject: =?x?B?=?x?B?QUJD?=?=', b'Subject: ?= =? =?x?Q?=?=']),
           b'Content-Type: multipart/mixed; boundary="B"', b'Content-Transfer-Encoding: quoted-printable', b'To: c@d']
     rng.shuffle(hs)
     text = b'\n'.join(hs[:rng.randrange(1, len(hs) + 1)])
